@@ -14,12 +14,14 @@ pub struct Emitter {
     pub probes: Vec<(usize, String, String)>,
     pub next_probe: usize,
     file: String,
+    pub file_ranges: BTreeMap<String, (usize, usize)>,   // byte range of each /repo file in proc-macro2's source map: only spans inside it carry /repo line numbers
+    cur_range: (usize, usize),
 }
 
 const NO_SPACE_AFTER_KW: &[&str] = &["if", "match", "while", "in", "return", "for", "let", "else", "loop", "move", "mut", "ref", "as", "break", "continue", "dyn", "impl", "where", "unsafe", "async"];
 
 impl Emitter {
-    pub fn new() -> Self { Emitter { lines: vec![], cur: String::new(), cur_src: None, linemap: vec![], functions: vec![], probes: vec![], next_probe: 0, file: String::new() } }
+    pub fn new() -> Self { Emitter { lines: vec![], cur: String::new(), cur_src: None, linemap: vec![], functions: vec![], probes: vec![], next_probe: 0, file: String::new(), file_ranges: BTreeMap::new(), cur_range: (0, usize::MAX) } }
     pub fn line(&self) -> usize { self.lines.len() + 1 }
     pub fn text(&self) -> String { let mut s = self.lines.join("\n"); s.push('\n'); s }
     fn flush(&mut self) {
@@ -41,6 +43,7 @@ impl Emitter {
     /// print a function body; loop bodies that start with the marker `__hx_loop(k);` get the loop spec before `{`
     pub fn body(&mut self, block: &syn::Block, indent: usize, file: &str, proof_entry: Option<&str>, loopspecs: &BTreeMap<usize, (String, Option<String>, Option<String>)>) {
         self.file = file.to_string();
+        self.cur_range = self.file_ranges.get(file).cloned().unwrap_or((0, usize::MAX));
         let ts = block.to_token_stream();
         // the block prints as one brace group
         let mut p = Printer { em: self, indent, loopspecs, pending_nl: false, prev: Prev::Start, prevprev_joint_colon: false };
@@ -95,7 +98,7 @@ impl<'a> Printer<'a> {
     fn start_line(&mut self) { self.em.cur.clear(); self.em.cur.push_str(&"    ".repeat(self.indent)); self.prev = Prev::Start; }
     fn newline(&mut self) { self.em.flush(); self.start_line(); }
     fn note_span(&mut self, sp: proc_macro2::Span) {
-        if self.em.cur_src.is_none() { let r = sp.byte_range(); let l = sp.start().line; if r.start != r.end && l > 0 { self.em.cur_src = Some(l); } }
+        if self.em.cur_src.is_none() { if let Some((a, b)) = crate::util::global_range(sp) { let l = sp.start().line; if a != b && l > 0 && a >= self.em.cur_range.0 && b <= self.em.cur_range.1 { self.em.cur_src = Some(l); } } }
     }
     fn space_before(&self, cur: &TokenTree) -> bool {
         match (&self.prev, cur) {
